@@ -6,8 +6,8 @@ sid, slug, prop, needs = sys.argv[1:5]
 race = len(sys.argv) > 5
 d = '/verif/seeded/%s-%s' % (prop, slug)
 os.makedirs(d, exist_ok=True)
-shutil.copy('/tmp/seed/%s.patch.diff' % sid, d + '/patch.diff')
-shutil.copy('/tmp/seed/%s.demo_test.go' % sid, d + '/demo_test.go.txt')
+shutil.copy(os.environ.get('SEED_DIR','/tmp/seed') + '/%s.patch.diff' % sid, d + '/patch.diff')
+shutil.copy(os.environ.get('SEED_DIR','/tmp/seed') + '/%s.demo_test.go' % sid, d + '/demo_test.go.txt')
 meta = {
     "property": prop,
     "origin": "written by an independent sub-agent which saw only the property text and a scratch worktree of /repo",
